@@ -1,6 +1,390 @@
-//! C40: not implemented yet.
+//! C40: the same operation through the sync and the async entry point.
+//! case: {op, fixture, format, alg, def, settings?, tamper?:[[off,xor]..], yields, ing_fixture?, ing_format?, relationship?}
+//! result: {"r":"ok", "sync": <outcome>, "async": <outcome>, "polls": n}; an outcome is {"err": class} or
+//! {"ok": {...normalised report...}}.
+use std::{
+    future::Future,
+    io::Cursor,
+    pin::Pin,
+    sync::{
+        atomic::{AtomicUsize, Ordering},
+        Arc,
+    },
+    task::{Context as TaskContext, Poll, Wake, Waker},
+};
+
+use c2pa::{assertions::DataHash, AsyncSigner, Builder, HashRange, Reader, Signer, SigningAlg};
 use serde_json::{json, Value};
 
-pub fn run(_case: &Value) -> Value {
-    json!({"r": "unimplemented"})
+use crate::{e2e, util::*};
+
+// ------------------------------------------------------------------ a minimal executor
+struct CountWake(AtomicUsize);
+impl Wake for CountWake {
+    fn wake(self: Arc<Self>) {
+        self.0.fetch_add(1, Ordering::SeqCst);
+    }
+}
+
+/// Single-task executor: polls until Ready; returns the value and the number of polls.
+pub fn block_on<F: Future>(f: F) -> (F::Output, usize) {
+    let mut f = Box::pin(f);
+    let w = Arc::new(CountWake(AtomicUsize::new(0)));
+    let waker = Waker::from(w.clone());
+    let mut cx = TaskContext::from_waker(&waker);
+    let mut polls = 0usize;
+    loop {
+        polls += 1;
+        match f.as_mut().poll(&mut cx) {
+            Poll::Ready(v) => return (v, polls),
+            Poll::Pending => {
+                if polls > 1_000_000 {
+                    panic!("block_on: future never completes");
+                }
+            }
+        }
+    }
+}
+
+/// A future that is Pending `n` times (waking itself each time) before it is Ready.
+struct YieldN(usize);
+impl Future for YieldN {
+    type Output = ();
+
+    fn poll(mut self: Pin<&mut Self>, cx: &mut TaskContext<'_>) -> Poll<()> {
+        if self.0 == 0 {
+            Poll::Ready(())
+        } else {
+            self.0 -= 1;
+            cx.waker().wake_by_ref();
+            Poll::Pending
+        }
+    }
+}
+
+/// The async twin of a sync signer: same key, same chain, same reserve; `sign` suspends `yields` times first.
+pub struct AsyncTwin {
+    inner: SendSigner,
+    yields: usize,
+}
+
+/// `create_signer::from_keys` returns a `Box<dyn Signer>` without Send/Sync in its type; the signers behind it hold
+/// only key material (they are used from one thread here).
+pub struct SendSigner(pub Box<dyn Signer>);
+unsafe impl Send for SendSigner {}
+unsafe impl Sync for SendSigner {}
+impl Signer for SendSigner {
+    fn sign(&self, data: &[u8]) -> c2pa::Result<Vec<u8>> {
+        self.0.sign(data)
+    }
+
+    fn alg(&self) -> SigningAlg {
+        self.0.alg()
+    }
+
+    fn certs(&self) -> c2pa::Result<Vec<Vec<u8>>> {
+        self.0.certs()
+    }
+
+    fn reserve_size(&self) -> usize {
+        self.0.reserve_size()
+    }
+}
+
+// hand expansion of #[async_trait] for `async fn sign(&self, data: Vec<u8>) -> Result<Vec<u8>>`
+impl AsyncSigner for AsyncTwin {
+    fn sign<'life0, 'async_trait>(
+        &'life0 self,
+        data: Vec<u8>,
+    ) -> Pin<Box<dyn Future<Output = c2pa::Result<Vec<u8>>> + Send + 'async_trait>>
+    where
+        'life0: 'async_trait,
+        Self: 'async_trait,
+    {
+        Box::pin(async move {
+            YieldN(self.yields).await;
+            self.inner.sign(&data)
+        })
+    }
+
+    fn alg(&self) -> SigningAlg {
+        self.inner.alg()
+    }
+
+    fn certs(&self) -> c2pa::Result<Vec<Vec<u8>>> {
+        self.inner.certs()
+    }
+
+    fn reserve_size(&self) -> usize {
+        self.inner.reserve_size()
+    }
+}
+
+pub fn async_twin(alg: &str, yields: usize) -> AsyncTwin {
+    AsyncTwin { inner: SendSigner(e2e::signer(alg)), yields }
+}
+
+// ------------------------------------------------------------------ normalised outcomes
+fn sorted_labels(m: &c2pa::Manifest) -> Vec<String> {
+    let mut v: Vec<String> = m.assertions().iter().map(|a| a.label().to_string()).collect();
+    v.sort();
+    v
+}
+
+/// state + codes + shape of the active manifest; nothing that contains a fresh UUID or a time.
+pub fn shape(reader: &Reader) -> Value {
+    let mut rep = e2e::report(reader);
+    if let Some(o) = rep.as_object_mut() {
+        o.remove("active");
+    }
+    let mut man = Value::Null;
+    if let Some(m) = reader.active_manifest() {
+        let ings: Vec<Value> = m
+            .ingredients()
+            .iter()
+            .map(|i| {
+                json!({"title": i.title(), "format": i.format(), "relationship": format!("{:?}", i.relationship()),
+                       "has_manifest": i.active_manifest().is_some(),
+                       "status": i.validation_status().map(|v| { let mut c: Vec<String> = v.iter().map(|s| s.code().to_string()).collect(); c.sort(); c })})
+            })
+            .collect();
+        let si = m.signature_info();
+        man = json!({
+            "title": m.title(), "format": m.format(), "assertions": sorted_labels(m), "ingredients": ings,
+            "alg": si.and_then(|s| s.alg).map(|a| a.to_string()), "issuer": si.and_then(|s| s.issuer.clone()),
+            "cn": si.and_then(|s| s.common_name.clone()), "has_time": si.map(|s| s.time.is_some()),
+            "generator": m.claim_generator(), "thumbnail": m.thumbnail_ref().map(|t| t.format.clone()),
+        });
+    }
+    json!({"report": rep, "manifest": man, "n_manifests": reader.iter_manifests().count()})
+}
+
+fn read_shape(settings: Option<&str>, format: &str, bytes: &[u8]) -> Value {
+    match e2e::read(e2e::context(settings), format, bytes) {
+        Ok(r) => json!({"ok": shape(&r)}),
+        Err(e) => json!({"err": err_class(&e)}),
+    }
+}
+
+fn outcome_of_signed(settings: Option<&str>, format: &str, r: c2pa::Result<Vec<u8>>) -> Value {
+    match r {
+        Ok(bytes) => json!({"ok": {"read": read_shape(settings, format, &bytes)}, "info": {"len": bytes.len()}}),
+        Err(e) => json!({"err": err_class(&e)}),
+    }
+}
+
+fn tampered(case: &Value, mut bytes: Vec<u8>) -> Vec<u8> {
+    if let Some(ts) = case["tamper"].as_array() {
+        for t in ts {
+            let off = u64_of(&t[0]) as usize;
+            let x = u64_of(&t[1]) as u8;
+            if !bytes.is_empty() {
+                let n = bytes.len();
+                bytes[off % n] ^= x;
+            }
+        }
+    }
+    bytes
+}
+
+fn builder(settings: Option<&str>, def: &str) -> c2pa::Result<Builder> {
+    Builder::from_context(e2e::context(settings)).with_definition(def)
+}
+
+// ------------------------------------------------------------------ operations
+pub fn run(case: &Value) -> Value {
+    let op = case["op"].as_str().unwrap_or("");
+    let fixture = case["fixture"].as_str().unwrap_or("CA.jpg");
+    let format = case["format"].as_str().unwrap_or("image/jpeg");
+    let alg = case["alg"].as_str().unwrap_or("ed25519");
+    let yields = case["yields"].as_u64().unwrap_or(0) as usize;
+    let settings_s = case.get("settings").filter(|v| !v.is_null()).map(|v| v.to_string());
+    let settings = settings_s.as_deref();
+    let def = case["def"].to_string();
+    let src = e2e::fixture(fixture);
+    let mut polls = 0usize;
+
+    let (s, a) = match op {
+        // Reader::with_stream vs with_stream_async on (possibly tampered) bytes: the whole report must agree
+        "read" => {
+            let bytes = tampered(case, src);
+            let s = match Reader::from_context(e2e::context(settings)).with_stream(format, Cursor::new(bytes.clone())) {
+                Ok(r) => json!({"ok": {"shape": shape(&r), "json": e2e::stable_json(&r)}}),
+                Err(e) => json!({"err": err_class(&e)}),
+            };
+            let (ra, p) = block_on(Reader::from_context(e2e::context(settings)).with_stream_async(format, Cursor::new(bytes)));
+            polls = p;
+            let a = match ra {
+                Ok(r) => json!({"ok": {"shape": shape(&r), "json": e2e::stable_json(&r)}}),
+                Err(e) => json!({"err": err_class(&e)}),
+            };
+            (s, a)
+        }
+        // Builder::sign vs sign_async with twin signers
+        "sign" | "save" => {
+            let run_sync = || -> c2pa::Result<Vec<u8>> {
+                let signer = e2e::signer(alg);
+                let mut input = Cursor::new(src.clone());
+                let mut out = Cursor::new(Vec::new());
+                if op == "sign" {
+                    let mut b = builder(settings, &def)?;
+                    b.sign(signer.as_ref(), format, &mut input, &mut out)?;
+                } else {
+                    let ctx = e2e::context(settings).with_signer(SendSigner(signer));
+                    let mut b = Builder::from_context(ctx).with_definition(def.as_str())?;
+                    b.save_to_stream(format, &mut input, &mut out)?;
+                }
+                Ok(out.into_inner())
+            };
+            let s = outcome_of_signed(settings, format, run_sync());
+            let fut = async {
+                let signer = async_twin(alg, yields);
+                let mut input = Cursor::new(src.clone());
+                let mut out = Cursor::new(Vec::new());
+                if op == "sign" {
+                    let mut b = builder(settings, &def)?;
+                    b.sign_async(&signer, format, &mut input, &mut out).await?;
+                } else {
+                    let ctx = e2e::context(settings).with_async_signer(signer);
+                    let mut b = Builder::from_context(ctx).with_definition(def.as_str())?;
+                    b.save_to_stream_async(format, &mut input, &mut out).await?;
+                }
+                Ok::<Vec<u8>, c2pa::Error>(out.into_inner())
+            };
+            let (ra, p) = block_on(fut);
+            polls = p;
+            (s, outcome_of_signed(settings, format, ra))
+        }
+        // data-hashed embeddable signing (JPEG): placeholder spliced after SOI, hashed with the exclusion, signed
+        "embed" => {
+            let prep = |b: &mut Builder, reserve: usize| -> c2pa::Result<(Vec<u8>, DataHash, usize)> {
+                let ph = b.data_hashed_placeholder(reserve, "image/jpeg")?;
+                let mut asset = src[..2].to_vec();
+                asset.extend_from_slice(&ph);
+                asset.extend_from_slice(&src[2..]);
+                let mut dh = DataHash::new("jumbf manifest", "sha256");
+                dh.add_exclusion(HashRange::new(2, ph.len() as u64));
+                dh.gen_hash_from_stream(&mut Cursor::new(asset.clone()))?;
+                Ok((asset, dh, ph.len()))
+            };
+            let finish = |mut asset: Vec<u8>, n: usize, signed: Vec<u8>| -> Value {
+                let same = signed.len() == n;
+                if same {
+                    asset[2..2 + n].copy_from_slice(&signed);
+                }
+                json!({"ok": {"fits": same, "read": read_shape(settings, "image/jpeg", &asset)}, "info": {"len": signed.len()}})
+            };
+            let s = (|| -> c2pa::Result<Value> {
+                let signer = e2e::signer(alg);
+                let mut b = builder(settings, &def)?;
+                let (asset, dh, n) = prep(&mut b, signer.reserve_size())?;
+                let signed = b.sign_data_hashed_embeddable(signer.as_ref(), &dh, "image/jpeg")?;
+                Ok(finish(asset, n, signed))
+            })()
+            .unwrap_or_else(|e| json!({"err": err_class(&e)}));
+            let (ra, p) = block_on(async {
+                let signer = async_twin(alg, yields);
+                let mut b = builder(settings, &def)?;
+                let (asset, dh, n) = prep(&mut b, signer.reserve_size())?;
+                let signed = b.sign_data_hashed_embeddable_async(&signer, &dh, "image/jpeg").await?;
+                Ok::<Value, c2pa::Error>(finish(asset, n, signed))
+            });
+            polls = p;
+            (s, ra.unwrap_or_else(|e| json!({"err": err_class(&e)})))
+        }
+        // ingredient import through add_ingredient_from_stream(_async), then signed and read back
+        "ingredient" => {
+            let ing_fixture = case["ing_fixture"].as_str().unwrap_or("CA.jpg");
+            let ing_format = case["ing_format"].as_str().unwrap_or("image/jpeg");
+            let ing = tampered(case, e2e::fixture(ing_fixture));
+            let ing_json = json!({"title": "ing", "relationship": case["relationship"].as_str().unwrap_or("componentOf")}).to_string();
+            let fin = |b: &mut Builder| -> c2pa::Result<Vec<u8>> {
+                let signer = e2e::signer(alg);
+                let mut input = Cursor::new(src.clone());
+                let mut out = Cursor::new(Vec::new());
+                b.sign(signer.as_ref(), format, &mut input, &mut out)?;
+                Ok(out.into_inner())
+            };
+            let s = (|| -> c2pa::Result<Vec<u8>> {
+                let mut b = builder(settings, &def)?;
+                b.add_ingredient_from_stream(ing_json.clone(), ing_format, &mut Cursor::new(ing.clone()))?;
+                fin(&mut b)
+            })();
+            let (ra, p) = block_on(async {
+                let mut b = builder(settings, &def)?;
+                b.add_ingredient_from_stream_async(ing_json.clone(), ing_format, &mut Cursor::new(ing.clone())).await?;
+                fin(&mut b)
+            });
+            polls = p;
+            (outcome_of_signed(settings, format, s), outcome_of_signed(settings, format, ra))
+        }
+        // a builder archive (JUMBF working store) added as an ingredient through add_ingredient_from_archive(_async)
+        "archive" => {
+            let ing_fixture = case["ing_fixture"].as_str().unwrap_or("CA.jpg");
+            let ing_format = case["ing_format"].as_str().unwrap_or("image/jpeg");
+            let ing = e2e::fixture(ing_fixture);
+            let make = || -> c2pa::Result<Vec<u8>> {
+                let mut b = builder(settings, &def)?;
+                b.add_ingredient_from_stream(json!({"title": "inner", "relationship": "parentOf"}).to_string(), ing_format, &mut Cursor::new(ing.clone()))?;
+                let mut ar = Cursor::new(Vec::new());
+                b.to_archive(&mut ar)?;
+                Ok(ar.into_inner())
+            };
+            let archive = match make() {
+                Ok(a) => tampered(case, a),
+                Err(e) => return json!({"r": "setup_err", "kind": err_class(&e)}),
+            };
+            let fin = |b: &mut Builder| -> c2pa::Result<Vec<u8>> {
+                let signer = e2e::signer(alg);
+                let mut input = Cursor::new(src.clone());
+                let mut out = Cursor::new(Vec::new());
+                b.sign(signer.as_ref(), format, &mut input, &mut out)?;
+                Ok(out.into_inner())
+            };
+            let s = (|| -> c2pa::Result<Vec<u8>> {
+                let mut b = builder(settings, &def)?;
+                b.add_ingredient_from_archive(&mut Cursor::new(archive.clone()))?;
+                fin(&mut b)
+            })();
+            let (ra, p) = block_on(async {
+                let mut b = builder(settings, &def)?;
+                b.add_ingredient_from_archive_async(&mut Cursor::new(archive.clone())).await?;
+                fin(&mut b)
+            });
+            polls = p;
+            (outcome_of_signed(settings, format, s), outcome_of_signed(settings, format, ra))
+        }
+        // sidecar manifest: sign without embedding, then Reader::with_manifest_data_and_stream(_async)
+        "sidecar" => {
+            let signer = e2e::signer(alg);
+            let made = (|| -> c2pa::Result<(Vec<u8>, Vec<u8>)> {
+                let mut b = builder(settings, &def)?;
+                b.set_no_embed(true);
+                let mut input = Cursor::new(src.clone());
+                let mut out = Cursor::new(Vec::new());
+                let manifest = b.sign(signer.as_ref(), format, &mut input, &mut out)?;
+                Ok((manifest, out.into_inner()))
+            })();
+            let (manifest, asset) = match made {
+                Ok(x) => x,
+                Err(e) => return json!({"r": "setup_err", "kind": err_class(&e)}),
+            };
+            let manifest = tampered(case, manifest);
+            let s = match Reader::from_context(e2e::context(settings)).with_manifest_data_and_stream(&manifest, format, Cursor::new(asset.clone())) {
+                Ok(r) => json!({"ok": {"shape": shape(&r), "json": e2e::stable_json(&r)}}),
+                Err(e) => json!({"err": err_class(&e)}),
+            };
+            let (ra, p) = block_on(
+                Reader::from_context(e2e::context(settings)).with_manifest_data_and_stream_async(&manifest, format, Cursor::new(asset.clone())),
+            );
+            polls = p;
+            let a = match ra {
+                Ok(r) => json!({"ok": {"shape": shape(&r), "json": e2e::stable_json(&r)}}),
+                Err(e) => json!({"err": err_class(&e)}),
+            };
+            (s, a)
+        }
+        _ => return json!({"r": "bad_case"}),
+    };
+    json!({"r": "ok", "sync": s, "async": a, "polls": polls})
 }
